@@ -30,8 +30,8 @@ ASSUMPTIONS = [
     "Junos-like vendors (juniper, ribbon, nokia): flattened set/delete statements are segmented into rows by the rulebook (block rows have a fixed word count, no catch-alls, no %rewrite, no negated-form rules there); `set` creates missing blocks, `delete` inside a missing block is a no-op",
     "the RouterOS formatter is not simulated here",
 ]
-FLOORS = {"quick": {"patches_executed": 3000, "commands_executed": 5000, "removals_executed": 500, "second_diffs_empty": 3000, "flat_patches_executed": 800, "flat_commands_executed": 2000, "overlapping_rule_cases": 50, "undo_redo_block_cases": 50, "model_chain_patches_executed": 30},
-          "thorough": {"patches_executed": 100000, "commands_executed": 200000, "removals_executed": 20000, "second_diffs_empty": 100000, "flat_patches_executed": 30000, "flat_commands_executed": 80000, "overlapping_rule_cases": 2000, "undo_redo_block_cases": 2000, "model_chain_patches_executed": 300}}
+FLOORS = {"quick": {"patches_executed": 3000, "commands_executed": 5000, "removals_executed": 500, "second_diffs_empty": 3000, "flat_patches_executed": 800, "flat_commands_executed": 2000, "overlapping_rule_cases": 50, "undo_redo_block_cases": 50, "model_chain_patches_executed": 30, "ignore_changes_block_cases": 50, "ordered_rewrite_body_cases": 25},
+          "thorough": {"patches_executed": 100000, "commands_executed": 200000, "removals_executed": 20000, "second_diffs_empty": 100000, "flat_patches_executed": 30000, "flat_commands_executed": 80000, "overlapping_rule_cases": 2000, "undo_redo_block_cases": 2000, "model_chain_patches_executed": 300, "ignore_changes_block_cases": 2000, "ordered_rewrite_body_cases": 1000}}
 BLOCK_VENDORS = ["huawei", "h3c", "optixtrans", "cisco", "nexus", "iosxr", "arista", "aruba", "b4com", "pc"]
 FLAT_VENDORS = {"juniper": {"set"}, "ribbon": {"set"}, "nokia": {"/configure"}}
 FLAT_ALLOW = ("global", "ordered", "logic", "flat")
@@ -222,12 +222,27 @@ def step(vname, rules, text, rb, old, new, acc, ctx):
     return dev_tree
 
 
+def reorder_only(rng, tree):
+    out = odict()
+    items = list(tree.items())
+    qs = [i for i, (r, _) in enumerate(items) if r.split()[0].startswith("q")]
+    if len(qs) >= 2:
+        perm = qs[:]
+        rng.shuffle(perm)
+        moved = [items[i] for i in perm]
+        for i, it in zip(qs, moved):
+            items[i] = it
+    for r, ch in items:
+        out[r] = reorder_only(rng, ch) if ch else odict()
+    return out
+
+
 def run_case(case, acc):
     """case: {vendor, rb_seed | rules?, seed, chain}"""
     rng = random.Random(case["seed"])
     vname = case["vendor"]
     v, prefix, exitw, hw, fmt = vendor_env(vname)
-    extra = (("overlap",) if case.get("overlap") else ()) + (("urblocks",) if case.get("urblocks") else ())
+    extra = tuple(f for f in ("overlap", "urblocks", "ordrw", "icblocks") if case.get(f))
     if vname in FLAT_VENDORS:
         rules = G.gen_rulebook(rng, depth=3, prefix=prefix, allow=FLAT_ALLOW + extra)
     else:
@@ -238,14 +253,26 @@ def run_case(case, acc):
     except Exception as e:
         acc.violation("C01/rulebook-does-not-compile", "generated rulebook rejected by the compiler", {"vendor": vname, "rulebook": text, "case": case, "error": repr(e)[:200]})
         return
+    if case.get("ordrw") and vname not in FLAT_VENDORS and not G.has_feature(rules, FEATURES["ordered_entries_with_rewrite_body"]):
+        host = next((r for r in rules if r.children and not r.glob and not any(c.ordered or c.rewrite for c in r.children)), None)
+        if host is not None:
+            host.children.append(RB.Rule("q1 *", ordered=True, children=[RB.Rule("~", glob=True, rewrite=True)]))
+            text = RB.render(rules)
+            rb = compile_rb(text, vname)
     old = G.gen_tree(rng, rules)
     if G.has_feature(rules, FEATURES["overlap"]):
         acc.count("overlapping_rule_cases")
     if G.has_feature(rules, FEATURES["undo_redo_block"]):
         acc.count("undo_redo_block_cases")
+    if G.has_feature(rules, FEATURES["ignore_changes_block"]):
+        acc.count("ignore_changes_block_cases")
+    if G.has_feature(rules, FEATURES["ordered_entries_with_rewrite_body"]):
+        acc.count("ordered_rewrite_body_cases")
     acc.distinct("rulebook_features", "|".join(sorted(f for f, p in FEATURES.items() if G.has_feature(rules, p))))
     for i in range(case["chain"]):
-        if rng.random() < 0.65:
+        if case.get("ordrw") and rng.random() < 0.4:
+            new = reorder_only(rng, old)  # the same lines, ordered lists permuted, bodies untouched
+        elif rng.random() < 0.65:
             new = G.mutate_tree(rng, old, rules)
         else:
             new = G.gen_tree(rng, rules)
@@ -263,6 +290,8 @@ FEATURES = {
     "ignore_changes": lambda r: r.logic == "common.ignore_changes", "negform": lambda r: len(r.pat.split()) > 1 and r.pat.split()[0] in ("undo", "no", "-"),
     "catchall": lambda r: r.pat == "~", "nested": lambda r: bool(r.children), "overlap": lambda r: "*/k[12]/" in r.pat,
     "undo_redo_block": lambda r: bool(r.children) and r.logic == "common.undo_redo",
+    "ignore_changes_block": lambda r: bool(r.children) and r.logic == "common.ignore_changes",
+    "ordered_entries_with_rewrite_body": lambda r: r.ordered and any(c.rewrite for c in r.children),
 }
 
 
@@ -432,6 +461,8 @@ def run_shard(spec, acc):
             case["overlap"] = True
         if j % 4 == 1:
             case["urblocks"] = True
+        if j % 4 == 2:
+            case["ordrw"] = case["icblocks"] = True
         run_case(case, acc)
     flat = sorted(FLAT_VENDORS)
     for j in range((total // 3) // n):
